@@ -295,7 +295,14 @@ func (n *simNet) step() {
 		if _, taken := n.users[lowerRFC(nn)]; taken && lowerRFC(nn) != lowerRFC(u.nick) {
 			return
 		}
-		n.emit("%sNICK %s%s", n.src(u), r.Pick([]string{"", ":"}), nn)
+		ntag := ""
+		if u != n.meUser() && r.Chance(30) {
+			// account-tag on the NICK message itself, carrying an account the client has not been told about yet (no account-notify):
+			// the tag speaks about the SENDER of the message, i.e. the user under the name it had when it sent it
+			u.account = "acct" + fmt.Sprint(r.Intn(9))
+			ntag = "@account=" + u.account + " "
+		}
+		n.emit("%s%sNICK %s%s", ntag, n.src(u), r.Pick([]string{"", ":"}), nn)
 		delete(n.users, lowerRFC(u.nick))
 		if u == n.meUser() || lowerRFC(u.nick) == lowerRFC(n.me) {
 			n.me = nn
